@@ -25,6 +25,8 @@ def evOfTokens (space : Nat) : List String → Ev → Option Ev
     | ["p", n] => (parseNat n).bind fun n => evOfTokens space ts { e with arrival := some (n : Int) }
     | ["q", rs] => (parseRangesW rs).bind fun rs => evOfTokens space ts { e with peerAck := rs }
     | ["f", _] => evOfTokens space ts e
+    | ["e", _] => evOfTokens space ts e
+    | ["c", _] => evOfTokens space ts { e with challenge := true }
     | ["s", sp, n] =>
       match parseNat sp, parseNat n with
       | some sp, some n => evOfTokens space ts (if sp = space then { e with sent := e.sent ++ [(n : Int)] } else e)
@@ -44,6 +46,8 @@ def why (st : WState) (e : Ev) : String :=
   if !(e.acks.all fun f => f.all fun r => allIn r.1 r.2 fun n => (arrivedAfter st e).contains n) then
     "ack-frame-acknowledges-a-packet-that-never-arrived"
   else if !((e.resp.all fun pn => !(st.procd.contains pn)) && nodupB e.resp) then "packet-number-processed-twice"
+  else if !(if e.challenge && isFresh st e then (match e.arrival with | some p => e.resp.contains p | none => true) else true) then
+    "fresh-packet-not-processed"
   else "peer-ack-of-never-sent-number-and-protocol-violation-close-disagree"
 
 def c25wStep (ms : Option MState) (line : String) : Option MState × String :=
